@@ -54,6 +54,8 @@ structure ModelRun where
   outcome : Outcome
   ambiguous : Bool
   sels : List (Sel Val)
+  /-- the lines whose batch has been received by the end of the run (per side a prefix of what was sent) -/
+  consumed : List Line
 
 def modelRun (nL nR : Nat) (lc rc : Bool) (ls : List Line) : ModelRun :=
   let (ops, ix) := toOps ls
@@ -65,7 +67,15 @@ def modelRun (nL nR : Nat) (lc rc : Bool) (ls : List Line) : ModelRun :=
     | .panic => ["panic:overflow"]
     | .fuel => lines ++ [s!"{line stop} out-of-fuel"]
     | _ => lines
-  { out := lines, outcome := oc, ambiguous := st.ambiguous, sels := selsFrom (init nL nR lc rc) ops }
+  -- lines after a pump that did not return / returned Terminate are never sent
+  let sentLs := match oc with | .idle => ls | _ => ls.filter (fun l => l.idx ≤ line stop)
+  let nl := (sentLs.filter (·.left)).length - st.qL.length
+  let nr := (sentLs.filter (fun l => !l.left)).length - st.qR.length
+  let consumed := (sentLs.foldl (fun (acc : List Line × Nat × Nat) l =>
+      if l.left then (if acc.2.1 < nl then (l :: acc.1, acc.2.1 + 1, acc.2.2) else acc)
+      else (if acc.2.2 < nr then (l :: acc.1, acc.2.1, acc.2.2 + 1) else acc)) ([], 0, 0)).1.reverse
+  { out := lines, outcome := oc, ambiguous := st.ambiguous, sels := selsFrom (init nL nR lc rc) ops,
+    consumed }
 
 /-! ## Input contract (spec side): each side is a contract-respecting block input
     (`StartSpec.inStep`), the two sides advance in lock step, a cached side has one iteration and
@@ -258,7 +268,10 @@ def handle (c : Case) : Verdict :=
       let rc := mode == "R"
       let ls := parseLines nL nR c.ops
       let m := modelRun nL nR lc rc ls
-      let info := checkInput nL nR lc rc ls
+      -- the contract is judged on everything that was sent, the expectations (rounds, completeness,
+      -- content) on what the receiver has taken out of the channels by the end of the run
+      let valid := (checkInput nL nR lc rc ls).valid && !m.ambiguous
+      let info := { checkInput nL nR lc rc m.consumed with valid := valid }
       let special := c.implOut.any (fun s => s.startsWith "panic:" || s.endsWith "blocked")
       let oracle : Option String :=
         if !info.valid || special then none else
@@ -294,6 +307,7 @@ def handle (c : Case) : Verdict :=
                  s!"outcome-{match m.outcome with | .idle => "idle" | .done => "done" | .blocked => "blocked" | .panic => "panic" | .fuel => "fuel"}"]
               ++ (if lc || rc then [s!"cache{min nCacheData 3}"] else [])
               ++ (if nq > 0 then ["queued"] else [])
+              ++ (if m.consumed.length < ls.length then ["leftover"] else [])
               ++ (if m.ambiguous then ["ambiguous"] else [])
               ++ (match oracle with
                   | some s => if (s.splitOn "known:F6b").length > 1 then ["F6b"] else if (s.splitOn "known:F6-").length > 1 then ["F6"] else ["oraclefail"]
